@@ -94,6 +94,7 @@ func props() []prop {
 			Assumptions: with("a user Codec (JSON) stands in for application messages"),
 			Units: []unit{
 				{Check: "codecrt", Pkg: "internal/actor", Shards: [2]int{8, 16}, Timeout: [2]time.Duration{6 * min, 40 * min}, CrashKey: "c12-crash", OnlyKinds: []string{"c12-", "harness-"}},
+				{Check: "codecrace", Pkg: "internal/actor", Race: true, Shards: [2]int{1, 1}, Timeout: [2]time.Duration{6 * min, 30 * min}, CrashKey: "c12-crash", OnlyKinds: []string{"c12-", "harness-", "data-race"}},
 			},
 		},
 		{
@@ -104,8 +105,8 @@ func props() []prop {
 			DesignRef:   "DESIGN.md §4 C10",
 			Assumptions: with("only the API documented as concurrency-safe is called from foreign goroutines"),
 			Units: []unit{
-				{Check: "hammer", Pkg: "internal/actor", Race: true, Instr: []string{"internal/future/future.go"}, Shards: [2]int{6, 8}, Timeout: [2]time.Duration{8 * min, 40 * min}, CrashKey: "c10-crash", HangKind: "c10-hang", OnlyKinds: []string{"c10-", "data-race", "harness-"}},
-{Check: "hammerfast", Pkg: "internal/actor", Instr: []string{"internal/future/future.go"}, Shards: [2]int{6, 8}, Timeout: [2]time.Duration{8 * min, 40 * min}, CrashKey: "c10-crash", HangKind: "c10-hang", OnlyKinds: []string{"c10-", "data-race", "harness-"}},
+				{Check: "hammer", Pkg: "internal/actor", Race: true, Instr: []string{"internal/future/future.go", "internal/actor/system.go"}, Shards: [2]int{6, 8}, Timeout: [2]time.Duration{8 * min, 40 * min}, CrashKey: "c10-crash", HangKind: "c10-hang", OnlyKinds: []string{"c10-", "data-race", "harness-"}},
+{Check: "hammerfast", Pkg: "internal/actor", Instr: []string{"internal/future/future.go", "internal/actor/system.go"}, Shards: [2]int{6, 8}, Timeout: [2]time.Duration{8 * min, 40 * min}, CrashKey: "c10-crash", HangKind: "c10-hang", OnlyKinds: []string{"c10-", "data-race", "harness-"}},
 			},
 		},
 		{
@@ -143,7 +144,7 @@ func props() []prop {
 			DesignRef:   "DESIGN.md §4 C19",
 			Assumptions: with("recipients(e) = actors that processed e or had e dead-lettered"),
 			Units: []unit{
-				{Check: "eventstream", Pkg: "internal/actor", Shards: [2]int{8, 16}, Timeout: [2]time.Duration{6 * min, 40 * min}, CrashKey: "c19-crash", OnlyKinds: []string{"c19-", "harness-"}},
+				{Check: "eventstream", Pkg: "internal/actor", Instr: []string{"internal/actor/killed_handler.go"}, Shards: [2]int{8, 16}, Timeout: [2]time.Duration{6 * min, 40 * min}, CrashKey: "c19-crash", OnlyKinds: []string{"c19-", "harness-"}},
 				{Check: "eventstreamrace", Pkg: "internal/actor", Race: true, Instr: []string{"internal/actor/event_stream.go"}, Shards: [2]int{4, 16}, Timeout: [2]time.Duration{8 * min, 40 * min}, CrashKey: "c19-crash", OnlyKinds: []string{"c19-", "harness-", "data-race"}},
 			},
 		},
